@@ -2160,8 +2160,9 @@ double BW_MidiSequencer::Tick(double s, double granularity)
     {
         if(!processEvents())
             break;
-        if(m_currentPosition.wait <= 0.0)
-            antiFreezeCounter--;
+        // Count every turn: a loop that takes no song time restores the wait it
+        // was entered with, which may be positive and still inside the granularity
+        antiFreezeCounter--;
     }
 
     if(antiFreezeCounter <= 0)
